@@ -794,6 +794,20 @@ pub fn c09_instances(tier: Tier) -> Vec<Instance> {
                     }
                 }
             }
+            // nor on what the transport's flush does (reading needs no flush): one that fails, one that is never ready at once
+            for style in [1u8, 2] {
+                for v in [0u8, 8, 9, 10, 255] {
+                    for verify in [true, false] {
+                        let mut i = Instance::new(&format!("gate-flush#{cname}#flush-{}-v{v}-verify-{verify}#{}", if style == 1 { "fails" } else { "never-ready-at-once" }, imp_name(imp)), imp, c, vec![f_ver(c, v), f_small(c), f_ver(c, 9)]);
+                        i.verify_version = verify;
+                        i.flush_style = style;
+                        i.chunks = Chunks::Boundary;
+                        i.allow_eof = true;
+                        if imp == Impl::Tokio { i.cancel_budget = 1; }
+                        out.push(i);
+                    }
+                }
+            }
             // nor on the request id the VER carries (0 = unsolicited, the handshake's own, somebody else's), whatever the
             // request id of the ISI this side sent, if any
             {
